@@ -219,6 +219,7 @@ class Builder:
         xs = " ".join(fs(x) for x in self.critical(extra))
         self.add(f"limit {r} left {xs}", focus=True)
         self.add(f"limit {r} right {xs}", focus=True)
+        self.add(f"sample {r} {xs}", focus=True)      # the value AT each point (depends on the result's closed side)
 
 
 def scalar_token(rng, allow_nan=True, vals=None):
